@@ -152,19 +152,21 @@ pub fn gen(tier: &str, rng: &mut Rng, emit: &mut dyn FnMut(String)) {
         });
     }
     let n = if tier == "thorough" { 200_000 } else { 5_000 };
-    for _ in 0..n {
-        let k = 1 + rng.below(60);
+    for it in 0..n {
+        let long = it % 50 == 0;
+        let k = if long { 100 + rng.below(400) } else { 1 + rng.below(60) };
         let start: String = (0..rng.below(4)).map(|_| format!("/{}", rfc_escape(&super::token::random_text(rng, 3)))).collect();
         let mut h: Vec<String> = vec![];
         for _ in 0..k {
-            let o = match rng.below(12) {
-                0 | 1 => format!("pf:{}", hex(super::token::random_text(rng, 4).as_bytes())),
-                2 | 3 => format!("pb:{}", hex(super::token::random_text(rng, 4).as_bytes())),
+            let tl = if long && rng.chance(1, 30) { 3000 } else if rng.chance(1, 40) { 300 } else { 4 };
+            let o = match if long { rng.below(9) } else { rng.below(12) } {
+                0 | 1 => format!("pf:{}", hex(super::token::random_text(rng, tl).as_bytes())),
+                2 | 3 => format!("pb:{}", hex(super::token::random_text(rng, tl).as_bytes())),
                 4 => format!("pbe:{}", hex(rfc_escape(&super::token::random_text(rng, 4)).as_bytes())),
                 5 | 6 => "of".into(),
                 7 | 8 => "ob".into(),
                 9 => format!("ap:{}", hex((0..rng.below(3)).map(|_| format!("/{}", rfc_escape(&super::token::random_text(rng, 3)))).collect::<String>().as_bytes())),
-                10 => format!("rp:{}:{}", if rng.chance(1, 8) { usize::MAX - rng.below(2) } else { rng.below(6) }, hex(super::token::random_text(rng, 4).as_bytes())),
+                10 => format!("rp:{}:{}", if rng.chance(1, 8) { usize::MAX - rng.below(2) } else if long { rng.below(200) } else { rng.below(6) }, hex(super::token::random_text(rng, 4).as_bytes())),
                 _ => if rng.chance(1, 6) { "cl".into() } else { "ob".into() },
             };
             h.push(o);
